@@ -1,7 +1,8 @@
 """History executors run inside a fork of a pristine interpreter (see server.py).
 
 compile history: a list of operations on ONE interpreter
-   ["compile", source]   define the module from `source` and compile its entity E
+   ["compile", source, {"reserved": [names]}?]   define the module from `source` and compile its entity E
+                         (optionally with additional_reserved_names)
    ["gc"]                gc.collect()
    ["define", source]    only define the module (class creation runs CoHDL code as well)
 outcome per compile: {"st": "ok", "sha": ..., "text": ...} | {"st": "rejected", "exc": type, "msg": ..., "site": [file, fn]}
@@ -73,11 +74,11 @@ def _kind(msg):
     return m[:60]
 
 
-def compile_one(src, keep_text=True):
+def compile_one(src, keep_text=True, opts=None):
     from vf.gen import render
 
     try:
-        text = render.compile_source(src, "E")
+        text = render.compile_source(src, "E", reserved=(opts or {}).get("reserved"))
     except render.Rejected as e:
         return {"st": "rejected", "exc": e.exc_type, "msg": e.message[:300], "site": [e.exc_type, _kind(e.message)]}
     o = {"st": "ok", "sha": hashlib.sha256(text.encode()).hexdigest()}
@@ -93,7 +94,7 @@ def run_compile_history(arg):
     out = []
     for op in ops:
         if op[0] == "compile":
-            o = compile_one(op[1], keep)
+            o = compile_one(op[1], keep, op[2] if len(op) > 2 else None)
         elif op[0] == "gc":
             gc.collect()
             o = {"st": "gc"}
